@@ -92,9 +92,18 @@ func cutStream(c *mon.C, shapes []gen.Shape, side ref.Side, offsets []int, flavo
 		o := e.o
 		o.Buf = []int{1, 4, 64, 4096}[(c.I+ei)%4]
 		base := drive.Run(xport.NewChunker(stream, plan), o)
-		if base.Err != io.EOF {
-			c.Inconclusive("uncut run does not end cleanly (C04's business): " + fmt.Sprint(base.Err))
-			return true
+		noBase := base.Err != io.EOF
+		// ends of the data messages, from the reference (independent of what the uncut run does): a message may only be
+		// reported once the stream holds all of it
+		var msgEnds []int
+		for i, f := range frames {
+			if !ref.IsControl(f.H.Op) && f.H.Fin {
+				end := len(stream)
+				if i+1 < len(starts) {
+					end = starts[i+1]
+				}
+				msgEnds = append(msgEnds, end)
+			}
 		}
 		for _, off := range offsets {
 			if off <= 0 || off >= len(stream) {
@@ -137,6 +146,26 @@ func cutStream(c *mon.C, shapes []gen.Shape, side ref.Side, offsets []int, flavo
 				if obs.Spin {
 					c.Fail("cut/spin/"+cls, "reader spins on a cut stream", det())
 					return false
+				}
+				whole, reported := 0, 0
+				for _, e := range msgEnds {
+					if e <= off {
+						whole++
+					}
+				}
+				for _, ev := range obs.Events {
+					if ev.Kind == "msg" && !ref.IsControl(ev.Op) {
+						reported++
+					}
+				}
+				if reported > whole && e.o.Discard == nil {
+					c.Fail("cut/message-reported-before-its-end/"+cls, fmt.Sprintf("%d data message(s) reported as read, the cut stream holds %d whole one(s)", reported, whole), det())
+					return false
+				}
+				if noBase {
+					// (the uncut run of this stream does not end cleanly - C04's business -, so there is nothing to be a prefix of)
+					c.Inconclusive("uncut run does not end cleanly: " + fmt.Sprint(base.Err))
+					continue
 				}
 				if d := isPrefix(obs.Events, base.Events); d != "" {
 					c.Fail("cut/not-a-prefix/"+cls, "events on the cut stream are not a prefix of the uncut run: "+d, det())
